@@ -1,19 +1,57 @@
 #!/venv/bin/python
-"""Run every seeded change against the check of the property it breaks; write seeded/MATRIX.json."""
-import glob, json, os, subprocess, sys
+"""Run every seeded change against the check of the property it breaks; write seeded/MATRIX.json.
+
+Each worker has a PRIVATE copy of /repo (VERIF_REPO) with the patch applied and a PRIVATE copy of the Lean project
+(VERIF_LEAN_DIR), so the runs are independent of each other and of /repo itself (which is not touched).
+  seeded_all.py [-j N] [name-prefix ...]"""
+import glob, json, os, shutil, subprocess, sys, tempfile
+from concurrent.futures import ThreadPoolExecutor
 V = os.path.dirname(os.path.dirname(os.path.abspath(__file__)))
-rows = {}
-for d in sorted(glob.glob(os.path.join(V, "seeded", "*", "meta.json"))):
-    sd = os.path.dirname(d)
-    p = subprocess.run([os.path.join(V, "harness", "seeded.py"), sd], capture_output=True, text=True)
-    res = json.load(open(os.path.join(sd, "last_run.json")))
-    meta = json.load(open(d))
-    pid = meta["property"]
-    r = res.get(pid, {})
-    kind = "missed"
-    if r.get("exit") == 1:
-        kind = "no-failing-input-found" if any("no-failing-input-found" in l for l in r.get("lines", [])) else "failing-input"
-    rows[os.path.basename(sd)] = {"property": pid, "result": kind, "seconds": r.get("s"), "summary": meta.get("summary", "")[:160]}
-    print(os.path.basename(sd), pid, kind, flush=True)
-json.dump(rows, open(os.path.join(V, "seeded", "MATRIX.json"), "w"), indent=1)
-print("missed:", [k for k, v in rows.items() if v["result"] == "missed"])
+args = sys.argv[1:]
+J = 6
+if args[:1] == ["-j"]:
+    J = int(args[1]); args = args[2:]
+dirs = [os.path.dirname(d) for d in sorted(glob.glob(os.path.join(V, "seeded", "*", "meta.json")))]
+if args:
+    dirs = [d for d in dirs if any(os.path.basename(d).startswith(a) for a in args)]
+base = tempfile.mkdtemp(prefix="verif_seeded_")
+import queue
+slots = queue.Queue()
+for k in range(J):
+    lean = os.path.join(base, "lean%d" % k)
+    shutil.copytree(os.path.join(V, "lean"), lean, symlinks=True)
+    slots.put((k, lean))
+
+
+def run(sd):
+    k, lean = slots.get()
+    repo = os.path.join(base, "repo%d" % k)
+    try:
+        shutil.rmtree(repo, ignore_errors=True)
+        subprocess.run(["git", "-C", "/repo", "worktree", "prune"], capture_output=True)
+        shutil.copytree("/repo", repo, ignore=shutil.ignore_patterns(".git"))
+        subprocess.run(["git", "init", "-q"], cwd=repo, check=True)
+        subprocess.run(["git", "apply", os.path.join(sd, "patch.diff")], cwd=repo, check=True)
+        meta = json.load(open(os.path.join(sd, "meta.json")))
+        pid = meta["property"]
+        env = dict(os.environ, VERIF_REPO=repo, VERIF_LEAN_DIR=lean, PYTHONPATH=repo, VERIF_OUT_DIR=os.path.join(base, "out%d" % k))
+        p = subprocess.run([os.path.join(V, "check"), pid, "--tier", "quick"], cwd=V, capture_output=True, text=True, env=env)
+        viol = [l for l in p.stdout.splitlines() if l.startswith("VIOLATION") or "failing input" in l]
+        kind = "missed"
+        if p.returncode == 1:
+            kind = "no-failing-input-found" if any("no-failing-input-found" in l for l in viol) else "failing-input"
+        elif p.returncode != 0:
+            kind = "error rc=%d %s" % (p.returncode, p.stdout[-200:])
+        json.dump({pid: {"exit": p.returncode, "lines": viol[:3]}}, open(os.path.join(sd, "last_run.json"), "w"), indent=1)
+        print(os.path.basename(sd), pid, kind, flush=True)
+        return os.path.basename(sd), {"property": pid, "result": kind, "summary": meta.get("summary", "")[:160]}
+    finally:
+        slots.put((k, lean))
+
+
+with ThreadPoolExecutor(J) as ex:
+    rows = dict(ex.map(run, dirs))
+shutil.rmtree(base, ignore_errors=True)
+if not args:
+    json.dump(rows, open(os.path.join(V, "seeded", "MATRIX.json"), "w"), indent=1)
+print("missed:", [k for k, v in rows.items() if v["result"] != "failing-input"])
